@@ -32,6 +32,7 @@ HARNESS = {
 }
 HARNESS["shim_chunks_map_collect"] = dict(kind="shim", proved=False, fns=["<[T]>::chunks + Iterator::map + collect::<Vec<_>> (core/alloc)"], bound="slice <= 7 bytes, chunk size usize full domain (> 0)")
 HARNESS["shim_iter_map_collect"] = dict(kind="shim", proved=False, fns=["<[T]>::iter + Iterator::map + collect::<Vec<_>> (core/alloc)"], bound="slice <= 5 bytes")
+HARNESS["shim_slice_try_into_array"] = dict(kind="fd", proved=True, fns=["<&[u8] as TryInto<&[u8; 32]>>::try_into (core::array)"], bound="40-byte buffer, symbolic length (loop-free: a length test and a pointer cast)")
 def _leaf(name, fns, bound, kind="leaf", proved=False):
     HARNESS[name] = dict(kind=kind, proved=proved, fns=fns if isinstance(fns, list) else [fns], bound=bound)
 
@@ -245,11 +246,11 @@ PROPS = {
     "C14": dict(
         level="proof",
         level_text="Framing, unbounded (Verus, unit sct, on the real closure-free bodies): the single-SCT parser is the content parser's verdict on EXACTLY the declared u16 window, consuming exactly one length-prefixed entry; the list parser is the explicit accumulate-while-Ok loop of the single-entry parser over EXACTLY the declared list window (entries in wire order, an entry or list longer than its container never yields an SCT). Content decode, unbounded as well (Verus, unit sct_content): version = byte 0, log id = bytes 1..33, timestamp = the big-endian u64 at 33, extensions = the u16-prefixed field at 41, then hash byte, signature byte and the u16-prefixed signature, remainder = what follows, every truncation Incomplete - for every input length. Cross-check on the compiled code: Kani contract harness - single SCT entry (u16 prefix, version, 32-byte log id by pointer, be64 timestamp over the full range, u16 extensions, hash/signature bytes, u16 signature, exact consumption; a field cut off by the entry length never yields an SCT) on inputs <= 52 bytes; list framing (u16 total, confinement, entry longer than the list / list longer than the input never yields an SCT) on short inputs. Bounded in input length; the n-entry in-order clause rests on the many0 shim contract (Kani shim_many0).",
-        level_note="The field-by-field decode of one SCT is a Verus proof relative to be_u64 (Kani shim_be64) and to 'try_into of the 32 taken bytes is the same 32 bytes' (parse_log_id is external_body: slice-to-array conversion is outside the subset; Kani leaf_sct_entry asserts the log id by pointer), repeated by bounded model checking (input <= 52 bytes) on the compiled code; the framing/ordering part is a Verus proof relative to the nom shim contracts (map_parser, length_data, take, many0, complete: Kani shim_* harnesses, bounded) and to 'fun_of(parse_ct_signed_certificate_timestamp) is the function it computes'. R11 (operand of `?` bound to a local) is applied to the list parser.",
+        level_note="The field-by-field decode of one SCT is a Verus proof relative to be_u64 (Kani shim_be64) and to the std reference conversion `<&[u8] as TryInto<&[u8; 32]>>::try_into` (rule R18: named as the shim function slice_try_into_array with core's definition as its contract - Kani shim_slice_try_into_array, loop-free and complete; parse_log_id itself - take(32), the conversion's `.expect(..)` never panicking, the struct literal - is proved; Kani leaf_sct_entry asserts the log id by pointer on the compiled code), repeated by bounded model checking (input <= 52 bytes) on the compiled code; the framing/ordering part is a Verus proof relative to the nom shim contracts (map_parser, length_data, take, many0, complete: Kani shim_* harnesses, bounded) and to 'fun_of(parse_ct_signed_certificate_timestamp) is the function it computes'. R11 (operand of `?` bound to a local) is applied to the list parser.",
         technique="contract-based deductive verification: Verus on the extracted entry/list framing (unbounded) and content decode (unbounded) + Kani contract harness for the SCT content decode on the compiled code (bounded)",
         verus=["sct", "sct_content"],
         standins=[dict(name="sct_lists", kind="bounded-execution", bound="lists of 0..5 well-formed SCTs in 3 shapes (minimal 49-byte entries, with extensions/signature, mixed)", payload={"sct_list_check": 1})],
-        kani=[dict(quick=["leaf_sct_entry", "leaf_sct_list_tiny", "shim_many0", "shim_map_parser", "shim_length_data", "shim_be64", "shim_be", "shim_take"], thorough=["leaf_sct_list_short"], timeout=900, timeout_thorough=2400)],
+        kani=[dict(quick=["leaf_sct_entry", "leaf_sct_list_tiny", "shim_many0", "shim_map_parser", "shim_length_data", "shim_be64", "shim_be", "shim_take", "shim_slice_try_into_array"], thorough=["leaf_sct_list_short"], timeout=900, timeout_thorough=2400)],
         paired={'sct_content': ['leaf_sct_entry'], 'sct': ['leaf_sct_entry', 'leaf_sct_list_tiny']},
         explanation="see level_text",
     ),
@@ -317,7 +318,7 @@ PROPS = {
                "hellos", "certs", "certreq", "tagged", "derived", "sct_content", "accessors"],
         kani=[dict(quick=["leaf_cipher_suites", "leaf_compressions", "leaf_tls_versions", "leaf_named_groups", "leaf_hs_newsessionticket", "leaf_ext_status_request", "leaf_ext_supported_versions",
                           "leaf_sct_entry", "leaf_msg_heartbeat", "leaf_prwh_heartbeat", "leaf_prwh_appdata", "fd_raw_record_small", "mod_client_hello", "mod_dtls_client_hello",
-                          "leaf_hs_certificate", "leaf_ext_sni", "leaf_ec_parameters", "fd_dtls_header", "fd_defrag_default", "shim_chunks_map_collect", "shim_iter_map_collect"],
+                          "leaf_hs_certificate", "leaf_ext_sni", "leaf_ec_parameters", "fd_dtls_header", "fd_defrag_default", "shim_chunks_map_collect", "shim_iter_map_collect", "shim_slice_try_into_array"],
                    thorough=["leaf_hs_certificate_request", "leaf_sct_list_short", "mod_client_hello_long"], timeout=900, timeout_thorough=2400)],
         standins=[dict(name="debug_format", kind="bounded-execution", bound="22 public parsers x (all inputs of length <= 2 + 276 boundary inputs of length 3..48): every Ok value is formatted with {:?}", payload={"debug_format_check": 1})],
         witness_search={"defrag": {"defrag_search": True, "depth": 3}},
